@@ -115,35 +115,6 @@ def r1(repo, res):
             res.ob("C18.R1", g, g, seen.get("cn_solution") == user_cn, expected=f"{label}: the given structure reaches the profile", found=str(seen.get("cn_solution")),
                    key=f"route-structure:{label}")
 
-    # (c) command line: _genotype folded whole -- the --param pairs reach genotype() as keyword arguments
-    cli = repo.func("__main__::_genotype")
-    res.analysed(cli)
-    got = []
-    args = Obj(cn_neutral_region=None, cn=None, file="in.bam", profile="illumina", simple=False, log=None, debug=None, solver="any", reference=None,
-               multiple_warn_level=1, genome=None, gene="g", output=None, param=[["gap=0.1", "min-coverage=3"], ["phase=false", "debug-probe=a=b"]])
-    try:
-        Lifted(cli, funcs={"parse_cn_region": lambda r: None, "genotype": lambda *a, **k: got.append(k), "vars": lambda o: dict(o.__dict__),
-                           "os.path.basename": os.path.basename})("g", None, args)
-    except Unfoldable as e:
-        res.err("C18.R1", f"command-line driver _genotype outside the folding language: {e}")
-        got = None
-    except Raised as e:
-        got = [("raise", str(e))]
-    if got is not None:
-        want = {"gap": "0.1", "min_coverage": "3", "phase": "false", "debug_probe": "a=b"}
-        ok = len(got) == 1 and isinstance(got[0], dict) and all(got[0].get(k_) == v_ for k_, v_ in want.items())
-        res.ob("C18.R1", cli, cli, ok, expected=f"--param gap=0.1 min-coverage=3 --param phase=false debug-probe=a=b reaches genotype(**{want})",
-               found=str({k_: got[0].get(k_) for k_ in want} if got and isinstance(got[0], dict) else got),
-               clause="set through the command line ... takes exactly the given value", key="cli-forward")
-
-    # (d) profile command: params handed to get_sam_profile_data(params=...)
-    mn = repo.func("__main__::main")
-    res.analysed(mn)
-    pc = find_calls(mn, "get_sam_profile_data")
-    ok = bool(pc) and kwarg(pc[0], "params") is not None and ast.unparse(kwarg(pc[0], "params")) == "params"
-    res.ob("C18.R1", mn, pc[0] if pc else mn, ok, expected="Profile.get_sam_profile_data(..., params=params)",
-           found=ast.unparse(pc[0])[:140] if pc else "no call", key="profile-cmd-forward")
-
 
 # documented type of every model parameter (docstrings of Profile.__init__); the reference for any later change
 TYPES = dict(gap=float, neutral_value=float, threshold=float, min_coverage=float, min_quality=int, min_mapq=int, phase=bool,
@@ -184,7 +155,7 @@ def spellings(typ):
         return [("0.75", 0.75), (0.75, 0.75), ("3", 3.0), (3, 3.0), ("1e-1", 0.1), ("abc", "raise")]
     if typ is int:
         return [("5", 5), (5, 5), ("0", 0), ("x", "raise"), ("5.5", "raise")]
-    return [("map-ont", "map-ont"), ("", "")]
+    return [("map-ont", "map-ont"), ("Map-ONT", "Map-ONT"), ("I223M;rs5", "I223M;rs5"), ("", "")]
 
 
 def attempt(fn):
@@ -295,6 +266,15 @@ def r3(repo, res, model, defaults):
                    expected="options of a profile file take the documented typed value (or AldyException); explicit parameters override them",
                    found="agrees" if bad is None else bad,
                    clause="set through ... the options section of a profile file takes exactly the given value with the documented type", key=f"options:{prm}")
+        # the same profile file loaded twice: what the first load was given explicitly does not show in the second
+        pth = put(model, profile_doc({"minor_miss": "2.5"}))
+        first = model.load(GENE, pth, gap="0.3", minor_miss="4")
+        second = model.load(GENE, pth)
+        okh = first.gap == 0.3 and first.minor_miss == 4.0 and same(second.gap, defaults["gap"]) and second.minor_miss == 2.5
+        res.ob("C18.R3", f, "same file loaded twice", okh,
+               expected="second load of the same file without explicit parameters: the file's options and the defaults (gap default, minor_miss 2.5)",
+               found=f"first: gap={first.gap!r}, minor_miss={first.minor_miss!r}; second: gap={second.gap!r}, minor_miss={second.minor_miss!r}",
+               clause="takes exactly the given value ... (histories)", key="load-twice")
         # a file without options, unknown option names, the data and the neutral region reach the object
         pth = put(model, profile_doc({"no_such_option": 1}))
         me = model.load(GENE, pth)
@@ -312,51 +292,52 @@ def r3(repo, res, model, defaults):
     res.count("C18.R3:loads folded", n)
 
 
-def fold_param_loop(loop: ast.For, params_in):
-    """Lift `for pl in args.param: for p in pl: ...` and fold it on a concrete option list."""
-    me = Evaluator({"args.param": params_in})
-    me.locals["params"] = {}
-    kind, val = me.run([loop])
-    return kind, val, me.locals.get("params")
-
-
 def r4(repo, res):
-    loops = []
-    for ref in ("__main__::main", "__main__::_genotype.run"):
-        f = repo.func(ref)
-        res.analysed(f)
-        for n in walk_local(f):
-            if isinstance(n, ast.For) and ast.unparse(n.iter) == "args.param":
-                loops.append((ref, f, n))
-    res.floor("C18.R4", "--param loops", len(loops), 2)
-    inputs = [
-        ([["a-b=1", "gap=0.1"]], ("fall", {"a_b": "1", "gap": "0.1"})),
-        ([["x=y=z"]], ("fall", {"x": "y=z"})),
-        ([["phase=false"], ["min-coverage=3"]], ("fall", {"phase": "false", "min_coverage": "3"})),
-        ([["novalue"]], ("raise", None)),
-        ([["k="]], ("fall", {"k": ""})),
+    """Command line, folded whole (`__main__.main` on an argparse model): what follows `--param` reaches genotype() /
+    the profile writer as keyword arguments, for one or several `--param` flags with one or several items each."""
+    from checks._cli import fold_main
+
+    mn = repo.func("__main__::main")
+    res.analysed(mn, repo.func("__main__::_get_args"), repo.func("__main__::_genotype"))
+    cases = [
+        (["--param", "a-b=1", "gap=0.1"], {"a_b": "1", "gap": "0.1"}),
+        (["--param", "x=y=z"], {"x": "y=z"}),
+        (["--param", "phase=false", "--param", "min-coverage=3"], {"phase": "false", "min_coverage": "3"}),
+        (["--param", "gap=0.1", "min-coverage=3", "--param", "phase=false", "debug-probe=I223M"],
+         {"gap": "0.1", "min_coverage": "3", "phase": "false", "debug_probe": "I223M"}),
+        (["--param", "k="], {"k": ""}),
+        (["--param", "novalue"], None),
+        ([], {}),
     ]
-    tables = []
-    for ref, f, loop in loops:
+    tables = {}
+    for sub, prefix in (("genotype", ["genotype", "in.bam", "-g", "g", "-p", "wgs"]), ("profile", ["profile", "in.bam"])):
         tab = []
-        for inp, (ekind, eparams) in inputs:
+        for extra, want in cases:
             try:
-                kind, val, params = fold_param_loop(loop, inp)
+                k, v, calls = fold_main(repo, prefix + extra)
             except Unfoldable as e:
-                res.err("C18.R4", f"--param loop in {ref} is outside the folding language: {e}")
+                res.err("C18.R4", f"command-line entry point outside the folding language: {e}")
                 return
-            ok = kind == ekind and (ekind == "raise" and val == "AldyException" or params == eparams)
-            tab.append((kind, val if kind == "raise" else params))
-            res.ob("C18.R4", f, f"--param {inp}", ok,
-                   expected=f"{ekind} {eparams if eparams is not None else 'AldyException'}",
-                   found=f"{kind} {val if kind == 'raise' else params}",
-                   clause="split on the first '=', '-' -> '_' in names, error without '='",
-                   key=f"{ref}|{inp}")
-        tables.append(tab)
-    if len(tables) >= 2:
-        same = all(t == tables[0] for t in tables[1:])
-        res.ob("C18.R4", loops[0][1], "sibling --param parsers", same, expected="identical tables", found="agree" if same else "differ",
-               key="siblings-agree")
+            hit = [c for c in calls if c[0] == sub]
+            if sub == "genotype":
+                got = {k_: v_ for k_, v_ in hit[0][2].items() if k_ not in GENOTYPE_ARGS} if hit else None
+            else:
+                got = hit[0][2].get("params") if hit else None
+            tab.append(got)
+            ok = (got == want) if want is not None else (got is None and k in ("return", "exit", "raise"))
+            res.ob("C18.R4", mn, f"aldy {sub} ... {' '.join(extra)}", ok,
+                   expected=(f"parameters {want} reach the {'genotyping call' if sub == 'genotype' else 'profile writer'}" if want is not None
+                             else "an item without '=' is rejected: nothing is genotyped / written"),
+                   found=f"{k}; parameters {got}",
+                   clause="every documented model parameter set through the command line ... takes exactly the given value (split on the first '=', '-' -> '_' in names)",
+                   key=f"{sub}|{' '.join(extra)}")
+        tables[sub] = tab
+    res.ob("C18.R4", mn, "sibling sub-commands", tables.get("genotype") == tables.get("profile"), expected="genotype and profile read --param alike",
+           found="agree" if tables.get("genotype") == tables.get("profile") else f"{tables}", key="siblings-agree")
+
+
+GENOTYPE_ARGS = {"gene_db", "sam_path", "profile_name", "output_file", "cn_region", "cn_solution", "report", "is_simple", "debug", "solver", "reference",
+                 "multiple_warn_level", "genome"}
 
 
 def r5(repo, res, model, defaults):
